@@ -81,6 +81,13 @@ MUTANTS = [
   "            this->operator*=(tmp);\n            return;\n        }\n#endif\n        const Derived& other_src = other.self();",
   "            this->operator=(tmp);\n            return;\n        }\n#endif\n        const Derived& other_src = other.self();", 0,
   "/g1", "revert of fix 2 (guarded `*=` of the fixed 1-D view assigns)"),
+ ("C18-i", "C18", V + "tensor_fixed_views_2d.h",
+  "            this->operator*=(tmp);", "            this->operator*=(other);", 0,
+  "/g2,/g2s", "seeded C18-m3: fixed 2-D `noalias() *=` (equal order) multiplies by `other` instead of the snapshot `tmp`"),
+ ("C18-j", "C18", V + "tensor_views_nd.h",
+  "    constexpr FASTOR_INLINE Tensor<T,Rest...> get_tensor() const {return _expr;};\n    constexpr FASTOR_INLINE std::array<seq,sizeof...(Rest)> get_sequences() const {return _seqs;}",
+  "    constexpr FASTOR_INLINE TensorType<T,Rest...> get_tensor() const {return _expr;};\n    constexpr FASTOR_INLINE std::array<seq,sizeof...(Rest)> get_sequences() const {return _seqs;}", 0,
+  "map-", "seeded C18-m1: n-D dynamic view `get_tensor()` returns TensorType (a TensorMap parent is copied shallowly: no snapshot)"),
  ("C18-h", "C18", V + "tensor_fixed_views_nd.h",
   "            this->operator/=(tmp);", "            this->operator*=(tmp);", 0,
   "real/", "fixed n-D `/=`: the guarded path finishes with `*=` (real types only: the symbolic carrier has no division)"),
